@@ -4,6 +4,7 @@ import (
 	"bytes"
 	"fmt"
 	"math/rand"
+	"strings"
 	"time"
 
 	abci "github.com/cometbft/cometbft/abci/types"
@@ -137,6 +138,17 @@ type ConformanceResult struct {
 func Conformance(mk func() (*Env, Driver), paths [][]string, stores []string, skipDenoms map[string]bool, sign bool) ConformanceResult {
 	var res ConformanceResult
 	for _, path := range paths {
+		// a restart from the exported genesis is no transaction: the second application cannot be told to do it
+		inexpressible := false
+		for _, op := range path {
+			if strings.HasPrefix(op, "restart-") {
+				inexpressible = true
+			}
+		}
+		if inexpressible {
+			res.Skipped++
+			continue
+		}
 		eA, dA := mk()
 		tr := &Tracer{Stores: stores, Sign: sign}
 		eA.Trace = tr
